@@ -2,6 +2,8 @@
 
 
 def register(reg):
+    register_hasher(reg)
+    register_hasher_next(reg)
     C = reg.contract
 
     C("torrentfile.hasher.merkle_root",
@@ -16,3 +18,99 @@ def register(reg):
       notes="mroot is the BEP 52 layer-wise definition (pair up, hash, repeat); the comprehension over zip(*[iter(blocks)]*2) is the "
             "pairing idiom; SHA-256 uninterpreted.  Called only with a non-empty power-of-two number of digests on the create path "
             "(the empty-list case of the real function returns its argument and is exercised natively)")
+
+
+HASHER = {"cls": "torrentfile.hasher.Hasher",
+          "fields": {"piece_length": "int", "paths": "list[str]", "align": "bool", "total": "int", "index": "int", "current": "file",
+                     "progress": "int"}}
+WF = ("self.piece_length > 0 and 0 <= self.index and file_wf(self.current, self.paths[self.index]) "
+      "if self.index < len(self.paths) else self.piece_length > 0 and 0 <= self.index")
+REMAINING = "(file_tail(self.current) + rest(self.paths, self.index + 1))"
+
+
+def register_hasher(reg):
+    C = reg.contract
+
+    # ------------------------------------------------------------------ next_file
+    C("torrentfile.hasher.Hasher.next_file",
+      props=["C01", "C15"],
+      params={"self": HASHER},
+      requires=["self.piece_length > 0", "0 <= self.index < len(self.paths)", "file_wf(self.current, self.paths[self.index])",
+                ("env", "path_is_file(self.paths, self.index + 1)")],
+      returns="bool",
+      modifies=["self.index", "self.current"],
+      ensures=[
+          ("C01", "index_advances", "self.index == old(self.index) + 1"),
+          ("C01", "true_iff_there_is_a_next_file", "result == (old(self.index) + 1 < len(self.paths))"),
+          ("C01", "next_file_opened_at_start",
+           "implies(result, file_wf(self.current, self.paths[self.index]) and file_tail(self.current) == fs_data(self.paths[self.index]))"),
+          ("C01", "no_next_file_leaves_the_handle_alone", "implies(not result, file_same(self.current, old(self.current)))"),
+          ("C01", "paths_unchanged", "self.paths == old(self.paths) and self.piece_length == old(self.piece_length) and self.align == old(self.align)"),
+      ])
+
+    # ------------------------------------------------------------------ _handle_partial
+    C("torrentfile.hasher.Hasher._handle_partial",
+      props=["C01", "C15"],
+      params={"self": HASHER, "arr": "bytearray"},
+      requires=["self.piece_length > 0", "0 <= self.index < len(self.paths)", "file_wf(self.current, self.paths[self.index])",
+                "file_at_eof(self.current)", "0 < len(arr) < self.piece_length"],
+      returns="bytes",
+      modifies=["self.index", "self.current", "arr"],
+      ghost_out={"hashed_sha1": "(old(arr) + zeros(self.piece_length - len(old(arr)))) if self.align else arr"},
+      ensures=[
+          # relational form of "the hash input is the next piece_length bytes of the stream (fewer only at its end)":
+          # input ++ remaining == old input ++ old remaining, and the input is full or the stream is exhausted.
+          # (L3: P ++ R == K and len P == min(pl, len K)  ==>  P == K[:pl]  -- unique prefix, lemmas/L3_stream.lean)
+          ("C01", "result_is_sha1_of_the_collected_bytes", "implies(not self.align, result == sha1(arr))"),
+          ("C01", "stream_is_conserved",
+           f"implies(not self.align, arr + {REMAINING} == old(arr) + rest(old(self.paths), old(self.index) + 1))"),
+          ("C01", "piece_is_full_unless_the_stream_ended",
+           f"implies(not self.align, len(arr) <= self.piece_length and (len(arr) == self.piece_length or len({REMAINING}) == 0))"),
+          ("C15", "aligned_piece_is_zero_padded",
+           "implies(self.align, result == sha1(old(arr) + zeros(self.piece_length - len(old(arr)))) and self.index == old(self.index))"),
+          ("C01", "state_stays_wellformed",
+           "self.paths == old(self.paths) and self.piece_length == old(self.piece_length) and self.align == old(self.align) and "
+           "old(self.index) <= self.index and implies(self.index < len(self.paths), file_wf(self.current, self.paths[self.index]))"),
+      ],
+      loops={0: {"invariant": [
+          ("stream_conserved", f"arr + {REMAINING} == old(arr) + rest(old(self.paths), old(self.index) + 1)"),
+          ("arr_bounds", "len(old(arr)) <= len(arr) <= self.piece_length"),
+          ("wf", "self.paths == old(self.paths) and self.piece_length == old(self.piece_length) and self.align == old(self.align) "
+                 "and old(self.index) <= self.index < len(self.paths) and "
+                 "file_wf(self.current, self.paths[self.index]) and file_at_eof(self.current)"),
+      ], "modifies": ["self.index", "self.current", "arr"]}},
+      notes="requires every listed path to be a regular file while hashing (no concurrent modification, DESIGN 3.3-6)")
+
+
+def register_hasher_next(reg):
+    C = reg.contract
+    C("torrentfile.hasher.Hasher.__next__",
+      props=["C01", "C15"],
+      params={"self": HASHER},
+      requires=["self.piece_length > 0", "0 <= self.index < len(self.paths)", "file_wf(self.current, self.paths[self.index])"],
+      returns="bytes",
+      modifies=["self.index", "self.current"],
+      ghost_out={"hashed_sha1": "hashed()"},
+      ensures=[
+          ("C01", "result_is_sha1_of_the_next_piece", "result == sha1(hashed())"),
+          ("C01", "the_piece_is_the_head_of_the_remaining_stream",
+           f"implies(not self.align, hashed() + {REMAINING} == old({REMAINING}))"),
+          ("C01", "only_the_final_piece_may_be_short",
+           f"implies(not self.align, 0 < len(hashed()) <= self.piece_length and (len(hashed()) == self.piece_length or len({REMAINING}) == 0))"),
+          ("C15", "aligned_pieces_never_straddle_files",
+           "implies(self.align, len(hashed()) == self.piece_length)"),
+          ("C01", "state_stays_wellformed",
+           "self.paths == old(self.paths) and self.piece_length == old(self.piece_length) and self.align == old(self.align) and "
+           "old(self.index) <= self.index and implies(self.index < len(self.paths), file_wf(self.current, self.paths[self.index]))"),
+      ],
+      raises={"StopIteration": {"ensures": [
+          ("C01", "stops_only_when_the_stream_is_exhausted", f"len(old({REMAINING})) == 0"),
+          ("C01", "index_past_the_last_file", "self.index >= len(self.paths)")]}},
+      raises_props=["C01"],
+      loops={0: {"invariant": [
+          ("stream_unchanged_while_skipping_exhausted_files", f"{REMAINING} == old({REMAINING})"),
+          ("wf", "self.paths == old(self.paths) and self.piece_length == old(self.piece_length) and self.align == old(self.align) "
+                 "and old(self.index) <= self.index < len(self.paths) and file_wf(self.current, self.paths[self.index])"),
+      ], "modifies": ["self.index", "self.current"]}},
+      notes="the k-th call returns SHA-1 of the next piece_length bytes of the concatenated files (fewer only at the very end) and "
+            "raises StopIteration exactly when nothing is left; by induction (L3) the results are v1_pieces(stream)")
